@@ -281,6 +281,11 @@ func writeGroupIni(cmd *Command, group *Group, namespace string, writer io.Write
 				}
 			}
 		default:
+			if kind == reflect.Ptr && val.IsNil() {
+				writeOption(writer, oname, kind, "", "", true, option.iniQuote)
+				break
+			}
+
 			v, _ := convertToString(val, option.tag)
 
 			writeOption(writer, oname, kind, "", v, commentOption, option.iniQuote)
